@@ -40,28 +40,42 @@ def stripwsIdentifierList (ks : List FNode) : List FNode := stripwsDefault (drop
 /-- drop trailing whitespace tokens -/
 def dropTrailingWs (ks : List FNode) : List FNode := (ks.reverse.dropWhile FNode.isWhitespace).reverse
 
-/-- `_stripws_parenthesis` -/
+/-- `while len(l) > k and l[0] is whitespace: l.pop(0)` with `k = 1`: drop leading elements satisfying `p` as long as
+another element follows -/
+def popLeadBy {α : Type} (p : α → Bool) : List α → List α
+  | [] => []
+  | b :: tl =>
+    match tl with
+    | [] => [b]
+    | _ :: _ => if p b then popLeadBy p tl else b :: tl
+
+/-- `while len(tokens) > 2 and tokens[1].is_whitespace: tokens.pop(1)` -/
+def trimAfterFirstBy {α : Type} (p : α → Bool) : List α → List α
+  | [] => []
+  | first :: tl => first :: popLeadBy p tl
+
+/-- `while len(tokens) > 2 and tokens[-2].is_whitespace: tokens.pop(-2)` (the same loop seen from the other end) -/
+def trimBeforeLastBy {α : Type} (p : α → Bool) (l : List α) : List α := (trimAfterFirstBy p l.reverse).reverse
+
+/-- both loops of `_stripws_parenthesis` -/
+def trimInsideBy {α : Type} (p : α → Bool) (l : List α) : List α := trimBeforeLastBy p (trimAfterFirstBy p l)
+
+/-- `if len(tokens) > 1 and tokens[-2].is_group: while tokens[-2].tokens[-1].is_whitespace: tokens[-2].tokens.pop(-1)`;
+a group whose children are all whitespace (or that has none) is emptied and `tokens[-1]` raises IndexError -/
+def trimPenGroup (l : List FNode) : Except PyErr (List FNode) :=
+  match l.reverse with
+  | last :: .grp c cv gks :: revInit =>
+    (match dropTrailingWs gks with
+     | [] => .error .indexError
+     | g0 :: grest => .ok (revInit.reverse ++ [.grp c cv (g0 :: grest), last]))
+  | _ => .ok l
+
+/-- `_stripws_parenthesis` (as of repo commit 4e9e704: the two outer loops are guarded by `len(tokens) > 2`, the group test by
+`len(tokens) > 1`) -/
 def stripwsParenthesis (ks : List FNode) : Except PyErr (List FNode) :=
-  match ks with
-  | [] => .error .indexError                                  -- `tokens[1]`
-  | first :: tl =>
-    -- while tlist.tokens[1].is_whitespace: tlist.tokens.pop(1)
-    match tl.dropWhile FNode.isWhitespace with
-    | [] => .error .indexError                                -- `tokens[1]` on a one-element list
-    | t1 :: tl1 =>
-      let all := first :: t1 :: tl1
-      let last := (t1 :: tl1).getLast?.getD t1
-      -- while tlist.tokens[-2].is_whitespace: tlist.tokens.pop(-2)
-      match (dropTrailingWs all.dropLast).reverse with
-      | [] => .error .indexError                              -- `tokens[-2]` on a one-element list
-      | pen :: revInit =>
-        -- if tlist.tokens[-2].is_group: while tlist.tokens[-2].tokens[-1].is_whitespace: …pop(-1)
-        match pen with
-        | .grp c cv gks =>
-          (match dropTrailingWs gks with
-           | [] => .error .indexError                         -- `tokens[-1]` on an empty list
-           | gks' => .ok (stripwsDefault (revInit.reverse ++ [.grp c cv gks', last])))
-        | .tok .. => .ok (stripwsDefault (revInit.reverse ++ [pen, last]))
+  match trimPenGroup (trimInsideBy FNode.isWhitespace ks) with
+  | .error e => .error e
+  | .ok l => .ok (stripwsDefault l)
 
 /-- `_stripws`: dispatch on `type(tlist).__name__.lower()` -/
 def stripwsDispatch (c : Cls) (ks : List FNode) : Except PyErr (List FNode) :=
